@@ -10,7 +10,8 @@
    `.pre` and the ordering (vcmp) — each is compared with the real library on every run.
    The regex shape, label set, separators and the decision list of detect_change_type come from
    Generated.v (harness/translate_version.py, fail closed).  No proofs in this file. *)
-From Coq Require Import List ZArith NArith Bool Decimal.
+From Coq Require Import List ZArith NArith Bool.
+From Coq Require Decimal.
 Import ListNotations.
 From WF Require Import Generated.
 Open Scope Z_scope.
